@@ -341,6 +341,24 @@ example : allows cfgDup reqP = false := by decide
 example : allowsOld cfgDup reqP = true := by decide
 example : ∃ r ∈ denyRules cfgDup (effPrincipal reqP.principal), matchesRule r reqP = true :=
   ⟨ruleAll, by decide, by decide⟩
+/-- exact patterns are CASE-SENSITIVE (only actions and resources fold case): instance of `name_exact` -/
+theorem _root_.KafVerif.C23.name_exact_case_sensitive :
+    nameMatches ['o', 'r', 'd', 'e', 'r', 's'] ['O', 'r', 'd', 'e', 'r', 's'] = false ∧
+    nameMatches ['O', 'r', 'd', '*'] ['o', 'r', 'd', 'e', 'r', 's'] = false ∧
+    matchesRule ⟨['P', 'R', 'O', 'D', 'U', 'C', 'E'], ['T', 'o', 'p', 'i', 'c'], ['o', 'r', 'd', 'e', 'r', 's']⟩
+      ⟨['p'], ['p', 'r', 'o', 'd', 'u', 'c', 'e'], ['t', 'o', 'p', 'i', 'c'], ['o', 'r', 'd', 'e', 'r', 's']⟩ = true := by
+  refine ⟨?_, by decide, by decide⟩
+  rw [KafVerif.C23.name_exact _ _ (by decide) (by decide) (by decide)]
+  decide
+
+/-- the same rule text as ALLOW in one entry and DENY in another entry of the principal (either
+order, any spelling of the name), or both in one entry: the request is denied (instances of `deny_overrides`) -/
+def cfgSameRule (first : Bool) : Config := { enabled := true, defaultPolicy := [], principals :=
+  if first then [{ name := ['p'], allow := [ruleAll], deny := [] }, { name := [' ', 'p'], allow := [], deny := [ruleAll] }]
+  else [{ name := ['p'], allow := [], deny := [ruleAll] }, { name := ['p', ' '], allow := [ruleAll], deny := [] }] }
+example : allows (cfgSameRule true) reqP = false ∧ allows (cfgSameRule false) reqP = false := by decide
+example : allows { enabled := true, defaultPolicy := allowStr, principals :=
+    [{ name := ['p'], allow := [ruleAll], deny := [ruleAll] }, { name := ['p'], allow := [], deny := [] }] } reqP = false := by decide
 example : nameMatches "orders-*".toList "orders-eu".toList = true := by decide
 example : nameMatches "orders-*".toList "order".toList = false := by decide
 example : trimSpace (['a', 'b'] ++ ['*']) = ['a', 'b'] ++ ['*'] := by decide
